@@ -163,9 +163,9 @@ ms_jobs(11, 'baseline', 'thorough', timeout=3000, mem=16)
 ms_jobs(2, 'debug8', 'thorough', ku=1, kc=1, slot=48, smax=16, timeout=3000, mem=16)
 
 # ---------------------------------------------------------------- memory_pool_collection<node_pool, log2_buckets> steps
-CO_OPS = {9: 'reserve', 1: 'ctor', 2: 'allocate_node', 3: 'try_allocate_node', 4: 'deallocate_node', 5: 'try_deallocate_node', 6: 'dtor', 7: 'allocate_array', 8: 'try_allocate_array'}
+CO_OPS = {9: 'reserve', 1: 'ctor', 2: 'allocate_node', 3: 'try_allocate_node', 4: 'deallocate_node', 5: 'try_deallocate_node', 6: 'dtor', 7: 'allocate_array', 8: 'try_allocate_array', 10: 'deallocate_array'}
 CO_PROPS = {9: ['C18', 'C01', 'C04'], 1: ['C01', 'C03', 'C18'], 2: ['C01', 'C02', 'C03', 'C04'], 3: ['C01', 'C02', 'C03', 'C04'], 4: ['C01', 'C04', 'C18'], 5: ['C08', 'C04'],
-            6: ['C05'], 7: ['C01', 'C02', 'C03'], 8: ['C01', 'C02', 'C03']}
+            6: ['C05', 'C15'], 7: ['C01', 'C02', 'C03', 'C15'], 8: ['C01', 'C02', 'C03'], 10: ['C04', 'C15', 'C18']}
 def co_jobs(op, config, tier, nslot=2, restmax=48, timeout=900, mem=12):
     add('coll-%s-%s-s%d-r%d' % (CO_OPS[op], config, nslot, restmax), CO_PROPS[op], 'pool', 'coll_step.c', config=config,
         defines=['OP=%d' % op, 'NSLOT=%d' % nslot, 'RESTMAX=%d' % restmax, 'MAXB=4', 'HEAP_SIZE=480'], unwind=24,
@@ -180,6 +180,13 @@ for op in (2, 3, 7, 8, 9):
     co_jobs(op, 'release', 'thorough', timeout=3000, mem=16)
 for op in (4, 6):
     co_jobs(op, 'baseline', 'thorough', timeout=3000, mem=16)
+# leak accounting (C15) needs a leak-checking configuration; 'leak' = leak counter only
+CO_PROPS[2] = CO_PROPS[2] + ['C15']; CO_PROPS[4] = CO_PROPS[4] + ['C15']
+for op in (4, 6, 10):
+    co_jobs(op, 'leak', 'quick', timeout=1200)
+co_jobs(10, 'release', 'quick')
+co_jobs(2, 'leak', 'quick', nslot=1, restmax=40, timeout=1200)
+co_jobs(7, 'leak', 'thorough', timeout=3000, mem=16)
 
 # ---------------------------------------------------------------- adapters over recording leaves
 AD_COMP = {'direct': ['EXACT_SHAPE'], 'ref': ['EXACT_SHAPE'], 'any': [], 'ts': ['EXACT_SHAPE', 'EXPECT_MUTEX', 'LOCK_PROXY'], 'al': ['NEED_POW2_ARG'],
@@ -274,6 +281,8 @@ for kind in ('pn', 'pa'):
         if op in (2, 3, 4, 7, 8): po_jobs(kind, op, 'release', 'thorough', nsz=24, npb=3, timeout=3000, mem=16)
 for op in (4, 6, 9):
     po_jobs('pn', op, 'baseline', 'quick')
+for op in (2, 7, 8):          # leak accounting of the traits-level node / array functions needs a leak-checking configuration
+    po_jobs('pa', op, 'leak', 'quick', timeout=1200)
 
 # ---------------------------------------------------------------- real libstdc++ containers on std_allocator over two recording leaves
 CONT = {'vec': ('std::vector<long>', []), 'fwd': ('std::forward_list<long>', ['NODE_CONST=w_fwd_node_size_const']), 'lst': ('std::list<long>', ['NODE_CONST=w_lst_node_size_const'])}
@@ -320,3 +329,22 @@ for ns in (1,):
                 timeout=3000, tier='thorough', mem_gb=16,
                 desc='small_free_memory_list::insert of a block that yields two chunks (255 + %d nodes), %s' % (krem, ('into an empty list', 'above an existing chunk', 'below an existing chunk')[have]),
                 bounds='node size %d; the existing 3-node chunk has a symbolic free chain, cache pointers symbolic; placement constant' % ns)
+
+# ---------------------------------------------------------------- small list: ring-level kernels (more chunks than the step harness)
+for cfg, tier in (('release', 'quick'), ('debug8', 'quick')):
+    add('sflk-insert_chunks-%s' % cfg, ['C01', 'C04'], 'sflk', 'sfl_chunks.c', config=cfg,
+        defines=['NSLOT=6', 'RMAX=3', 'HEAP_SIZE=%d' % (7 * 32)], unwind=8, timeout=600, tier=tier,
+        desc='insert_chunks() (anonymous namespace of small_free_list.cpp, real source compiled into the shim unit): link a run of new chunks into an arbitrary ring',
+        bounds='6 address-ordered slots, any subset already on the ring, new run of 1..3 interconnected chunks in any gap, base chunk below or above the slots')
+def sfl_ring_jobs(op, config, tier, ns, nch, nnodes, lay=0, gap=0, timeout=900):
+    csz = (32 + nnodes * ns + 7) // 8 * 8
+    add('sfl-ring%d-%s-%s-ns%d-lay%d%d' % (nch, SFL_OPS[op], config, ns, lay, gap), SFL_PROPS[op], 'freelist', 'sfl_step.c', config=config,
+        defines=['OP=%d' % op, 'NS_MIN=%d' % ns, 'NS_MAX=%d' % ns, 'LAY=%d' % lay, 'GAP=%d' % gap, 'NCH=%d' % nch, 'NN=%d' % nnodes,
+                 'HEAP_SIZE=%d' % (2 * 56 + nch * (csz + 16) + 8)], unwind=max(8, nch + 3), timeout=timeout, tier=tier, mem_gb=8,
+        desc='small_free_memory_list::%s one inductive step from an arbitrary valid state with a longer chunk ring (two-ended chunk search)' % SFL_OPS[op],
+        bounds='<=%d chunks of <=%d nodes, arbitrary free chains, cache pointers anywhere on the ring, node size %d, layout %d, chunk gap %d' % (nch, nnodes, ns, lay, gap))
+for op in (1, 2):
+    sfl_ring_jobs(op, 'release', 'quick', 1, 5, 1)
+    sfl_ring_jobs(op, 'baseline', 'quick', 3, 4, 2, lay=2, gap=1)
+sfl_ring_jobs(11, 'baseline', 'quick', 1, 5, 1)
+sfl_ring_jobs(11, 'ptr', 'quick', 3, 4, 2, lay=1, gap=1)
